@@ -51,6 +51,8 @@ static bool sync_decode(const std::vector<uint8_t> &bytes, Bulk &chunks, int chu
   return ok;
 }
 
+static void c10_gain(float **pcm, long channels, long samples, void *param) { float g = *(float *)param; for (long c = 0; c < channels; c++) for (long i = 0; i < samples; i++) pcm[c][i] *= g; }
+
 bool prop_run(Tape &t, Report &r) {
   ChainOpts o; o.maxlinks = 4; o.gp_offset_pct = 8; o.vgen_pct = g_tape_gen >= 3 ? 25 : 0;
   Chain c; GT g; std::vector<LinkMeta> meta; std::string desc;
@@ -78,6 +80,8 @@ bool prop_run(Tape &t, Report &r) {
     std::vector<PCM> pl; std::vector<long> neg;
     int lastbs = -1; int64_t got = 0; bool fail = false; std::string why;
     bool intread = t.chance(1, 3); if (intread) { r.label("ov_read (integer) path"); pd += " ov_read"; }
+    // the integer path through ov_read_filter with a gain: each sample must pass the application's filter exactly once whatever lengths are asked for
+    float fgain = 1.f; bool filt = intread && g_tape_gen >= 3 && t.chance(1, 2); if (filt) { fgain = t.chance(1, 2) ? 0.5f : -0.75f; r.label("ov_read_filter (gain) path"); pd += sfmt(" filter x%g", (double)fgain); }
     std::vector<char> ibuf(20000);
     for (;;) {
       float **pcm; int bs = -7; int req = reqmode == 0 ? 4096 : reqmode == 1 ? 1 + (int)rq.below(8192) : 1 + (int)rq.below(40);
@@ -85,7 +89,7 @@ bool prop_run(Tape &t, Report &r) {
       if (intread) {
         int chn = ov_info(&vf, -1) ? ov_info(&vf, -1)->channels : 1;   // channels of the link the handle is in before the call (may change inside it)
         int len = req * 2; if (len < 2 * 8) len = 2 * 8;                 // at least one frame for any generated channel count
-        n = ov_read(&vf, ibuf.data(), len, 0, 2, 1, &bs);
+        n = filt ? ov_read_filter(&vf, ibuf.data(), len, 0, 2, 1, &bs, c10_gain, &fgain) : ov_read(&vf, ibuf.data(), len, 0, 2, 1, &bs);
         if (n == 0) break;
         if (n < 0) { why = sfmt("ov_read returned %ld after %lld samples", n, (long long)got); fail = true; break; }
         if (n > len) { why = sfmt("ov_read returned %ld > buffer %d", n, len); fail = true; break; }
@@ -125,7 +129,7 @@ bool prop_run(Tape &t, Report &r) {
         for (size_t q = 0; q < want.size(); q++) for (size_t j = 0; j < want[q].size(); j++) {
           float x = want[q][j];
           if (x != x) { if (q < pl[i].size() && j < pl[i][q].size()) want[q][j] = pl[i][q][j]; else want[q][j] = 0; }
-          else want[q][j] = (float)expect_i16(x);
+          else want[q][j] = (float)expect_i16(filt ? x * fgain : x);
         }
         if (!pcm_equal(pl[i], want, &w2)) return r.fail("link %zu (ov_read, 16-bit) differs from the converted packet-level decode: %s (%s) [%s]", i, w2.c_str(), pd.c_str(), desc.c_str());
         continue;
